@@ -1273,16 +1273,16 @@ Proof.
     (ROk {| plexer := {| input := "-0"; start := 1; current := 1; width := 0; err := None |};
             ptoken := {| ttype := typeMinus; tvalue := "-"; tpos := 0 |} |}).
   cbn [rbind]. change (parse_fuel "-0") with 10%nat.
-  rewrite parseExpression_unfold, bind_curToken. cbn [ptoken ttype tt_eqb tt_num Nat.eqb].
+  rewrite parseExpression_unfold, bind_curToken. cbn [ptoken ttype tt_eqb tt_num Nat.eqb opens_operand orb].
   unfold sbind at 1.
-  change (advance false _) with
+  change (advance true _) with
     (ROk (tt, {| plexer := {| input := "-0"; start := 2; current := 2; width := 0; err := None |};
                  ptoken := {| ttype := typeNumber; tvalue := "0"; tpos := 1 |} |})) at 1.
   cbv iota beta.
   change (lookupNud parse_number regex_check 9 (parseExpression parse_number regex_check fmt_g quote 9) typeMinus)
     with (Some (parseNegation (parseExpression parse_number regex_check fmt_g quote 9))).
   cbv iota. unfold sbind at 1. unfold parseNegation. unfold sbind at 1.
-  rewrite parseExpression_unfold, bind_curToken. cbn [ptoken ttype tt_eqb tt_num Nat.eqb].
+  rewrite parseExpression_unfold, bind_curToken. cbn [ptoken ttype tt_eqb tt_num Nat.eqb opens_operand orb].
   unfold sbind at 1.
   change (advance false _) with
     (ROk (tt, {| plexer := {| input := "-0"; start := 2; current := 2; width := 0; err := None |};
@@ -1398,9 +1398,20 @@ Qed.
 Example C11_rejects_ex (pn : string -> numlit) (rc : string -> option string) (fg : f64 -> string) (q : string -> string) :
   let bad1 := quoted 34 "a\q" in
   let bad2 := quoted 34 "\uD83D!" in
+  let bad3 := quoted 34 "\u+123" in
+  let bad4 := quoted 34 "\uD83D\u-E00" in
   (exists e, parse pn rc fg q (parse_fuel bad1) bad1 = RErr e /\ etype e = ErrIllegalEscape) /\
-  (exists e, parse pn rc fg q (parse_fuel bad2) bad2 = RErr e /\ etype e = ErrIllegalEscapeHex).
-Proof. split; eexists; split; vm_compute; reflexivity. Qed.
+  (exists e, parse pn rc fg q (parse_fuel bad2) bad2 = RErr e /\ etype e = ErrIllegalEscapeHex) /\
+  (exists e, parse pn rc fg q (parse_fuel bad3) bad3 = RErr e /\ etype e = ErrIllegalEscapeHex
+             /\ ehint e = "u+123") /\
+  (exists e, parse pn rc fg q (parse_fuel bad4) bad4 = RErr e /\ etype e = ErrIllegalEscapeHex).
+Proof.
+  split; [|split; [|split]].
+  - eexists; split; vm_compute; reflexivity.
+  - eexists; split; vm_compute; reflexivity.
+  - eexists; split; [|split]; vm_compute; reflexivity.
+  - eexists; split; vm_compute; reflexivity.
+Qed.
 
 Open Scope Z_scope.
 
